@@ -167,6 +167,13 @@ func (r *entityResolver) FindIotaByOwnerID(ctx context.Context, ownerID string) 
 	}
 	return &Iota{Owner: &Alpha{ID: ownerID, Name: "name-of-" + ownerID}}, nil
 }
+func (r *entityResolver) FindKappaByOwnerIDAndSku(ctx context.Context, ownerID string, sku string) (*Kappa, error) {
+	if err := r.w.apply(ctx, "KappaByOwnerIDAndSku:"+ownerID+"/"+sku); err != nil {
+		return nil, err
+	}
+	n := "note-" + ownerID + "/" + sku
+	return &Kappa{Owner: &Alpha{ID: ownerID, Name: "name-of-" + ownerID}, Sku: sku, Note: &n}, nil
+}
 func (r *entityResolver) FindGammaByOwnerID(ctx context.Context, ownerID string) (*Gamma, error) {
 	if err := r.w.apply(ctx, "GammaByOwnerID:"+ownerID); err != nil {
 		return nil, err
@@ -197,7 +204,7 @@ var (
 	fedDoc    *ast.QueryDocument
 )
 
-const fedQueryText = `query($r: [_Any!]!) { _entities(representations: $r) { __typename ... on Alpha { id name } ... on Beta { id name } ... on Gamma { note owner { id } } ... on Delta { id size weight area dims { width height } } ... on Zeta { id name size dims { width height } } ... on Epsilon { sku variant upc } ... on Theta { id } ... on Iota { owner { id name } } } }`
+const fedQueryText = `query($r: [_Any!]!) { _entities(representations: $r) { __typename ... on Alpha { id name } ... on Beta { id name } ... on Gamma { note owner { id } } ... on Delta { id size weight area dims { width height } } ... on Zeta { id name size dims { width height } } ... on Epsilon { sku variant upc } ... on Kappa { sku note owner { id } } ... on Theta { id } ... on Iota { owner { id name } } } }`
 
 func fedSetup() {
 	es := NewExecutableSchema(Config{Resolvers: &fedRoot{}})
